@@ -1,4 +1,5 @@
 import FancyModel.Lemmas.AVM2Defs
+import FancyModel.Spec.Stage
 import FancyModel.Lemmas.SimCompile
 import FancyModel.Lemmas.SemK
 /-!
@@ -547,14 +548,6 @@ example : slotsBelowAll 4 [.group 1 (.literal ['a'] false), .backref 1] = true â
   simp [slotsBelow, slotsBelowAll]
 
 /-! ## The program condition -/
-
-/-- decidable condition on a program: every `Delegate` owns groups inside the ordinary slots and its
-    expressions mention only ordinary slots -/
-def progDelegOK (nS : Nat) (prog : List Insn) : Bool :=
-  prog.all fun i =>
-    match i with
-    | .delegate es sg eg => decide (eg * 2 â‰¤ nS) && decide (sg â‰¤ eg) && slotsBelowAll nS es
-    | _ => true
 
 /-- **`DelegOK` from the decidable program condition** (discharges the hypothesis of `link2`) -/
 theorem delegOK_of_prog (c : Ctx) (prog : List Insn) (nS : Nat) (h : progDelegOK nS prog = true) :
